@@ -20,7 +20,7 @@ LEVEL = 'model_checking'
 ENTRY = '@harness_topo'
 
 
-def make_build(n, rounds):
+def make_build(n, rounds, first_round_registers=False):
     def build(first):
         st = State()
         ds = [z3.BitVec('d%d' % i, 8) for i in range(n * rounds)]
@@ -28,9 +28,19 @@ def make_build(n, rounds):
             st.mem[BUF + i] = ds[i] if i < len(ds) else 0
         for d in ds:
             st.pc.append(z3.ULT(d, 1 << (n + 1)))
+        # in round 1 nothing has a dependency yet, so item i takes decision i; the mask bit that names the item itself is
+        # ignored by the protocol (an item does not wait on itself): fixing it to 0 removes equivalent histories only
+        for i in range(min(n, len(ds))):
+            st.pc.append((ds[i] >> (i + 1)) & 1 == 0)
+            if first_round_registers:
+                # restricted family: every item registers dependencies in round 1 (histories in which an item completes
+                # at once continue as histories of fewer items, which the smaller configurations cover)
+                st.pc.append(ds[i] & 1 == 1)
+                st.pc.append(ds[i] >> 1 != 0)
         if first is not None:
             st.pc.append(z3.Or(*[ds[0] == v for v in first]))
-        return st, [BUF, n, rounds], {'decisions': ds, 'n': n, 'rounds': rounds}
+        # in the restricted family the last round only observes what is offered
+        return st, [BUF, n, rounds | (0x100 if first_round_registers else 0)], {'decisions': ds, 'n': n, 'rounds': rounds}
     return build
 
 
@@ -53,15 +63,19 @@ def run(chk, tier, seed):
     rnd = random.Random(seed)
     cases = [([rnd.randrange(16) for _ in range(9)], 3, 3) for _ in range(12)]
     llcheck.selftest(chk, mod, so, ENTRY, concrete, lambda c: native_args(*c), cases, ret='c_uint32', ret_bits=32)
-    configs = [(2, 3), (3, 2)] if tier == 'quick' else [(2, 4), (3, 3), (4, 2)]
-    for n, rounds in configs:
-        vals = list(range(1 << (n + 1)))
+    import os
+    # (items, rounds, restricted to histories whose first round only registers dependencies)
+    configs = [(2, 3, False), (3, 2, False), (3, 3, True)] if tier == 'quick' else [(2, 4, False), (3, 2, False), (3, 3, True), (4, 2, False)]
+    if os.environ.get('C26_CONFIGS'):
+        configs = [(int(c.split('x')[0]), int(c.split('x')[1].rstrip('r')), c.endswith('r')) for c in os.environ['C26_CONFIGS'].split(',')]
+    for n, rounds, restricted in configs:
+        vals = [v for v in range(1 << (n + 1)) if not (v >> 1) & 1 and ((v & 1 and v >> 1) or not restricted)]
         firsts = [[v] for v in vals] if len(vals) <= 16 else [vals[i::16] for i in range(16)]
-        job = Job(ENTRY, make_build(n, rounds), judge_zero, max_steps=4_000_000)
+        job = Job(ENTRY, make_build(n, rounds, restricted), judge_zero, max_steps=4_000_000)
         tot = explore(chk, mod, job, firsts, nproc=16)
         for v in tot['violations'][:10]:
             dec = v['inputs']['decisions']
-            args = native_args(dec, n, rounds)
+            args = native_args(dec, n, rounds | (0x100 if restricted else 0))
             r = llcheck.native_call(so, ENTRY, args, ret='c_uint32')
             what = 'TopoSort with %d items, %d rounds, decisions %s: %s; native call %r' % (n, rounds, dec, v['what'], r)
             if r[0] == 'ret' and r[1] == 0:
@@ -71,7 +85,7 @@ def run(chk, tier, seed):
             chk.report(key, what, path)
     chk.cov['exhaustive'] = True
     chk.cov['explanation'] = 'states = finished paths of harness_topo: every protocol history of the stated size (which offered items complete, which dependency sets they register) is one path'
-    chk.bounds.update({'items_x_rounds': configs, 'outside_claim': ['histories outside the checker\'s protocol (re-registering a completed item)', 'more items/rounds than stated',
+    chk.bounds.update({'items_x_rounds_x_first_round_registers_only': [list(c) for c in configs], 'outside_claim': ['histories outside the checker\'s protocol (re-registering a completed item)', 'more items/rounds than stated',
                                                                      'iteration order of offered items (results are sorted before comparison)']})
     chk.assumptions.extend(['getrandom is modelled (fixed bytes): RandomState keys are constants, so only iteration-order-independent assertions are made',
                             'rustc 1.88 LLVM IR at opt-level 1; llsym validated against native runs'])
